@@ -47,7 +47,9 @@ SM_EXTS = [".sm", ".SM", ".Sm", ".sM"]
 SSC_EXTS = [".ssc", ".SSC", ".SsC", ".sSc"]
 NEAR = ["x.sm.old", "x.ssca", "sm", "ssc", "x.smx", "x.ssc.bak", "xsm", "x.sm_", "SM", "x.ssc~", "x.s", "x.sc", "a.sm.txt", "ssc.x",
         # only case FOLDING (not lower-casing) turns these into .ssc / .sm: they are not simfile names
-        "x.\u00dfc", "x.\u017fm", "x.\u017f\u017fc"]
+        "x.\u00dfc", "x.\u017fm", "x.\u017f\u017fc",
+        # a line feed after the extension: the name does not END in .sm / .ssc
+        "x.sm\n", "y.ssc\n"]
 OTHER = ["banner.png", "BG.JPG", "x.ogg", "song.MP3", "notes.txt", "README", "a.lrc"]
 # directory names include ones that look like loose files (a song folder may be called "Butterfly.ogg"); names ending in
 # .sm / .ssc are not used for directories: the quantifier builds trees from *file* names with simfile extensions (a
